@@ -21,6 +21,7 @@ type codecItem struct {
 	typ  string
 	ord  string
 	at   ssa.Instruction
+	done string // table mode: atom of the loop-exhausted edge
 }
 
 // domOrder sorts instructions by dominance (a chain of success edges).
@@ -48,6 +49,14 @@ func ruleC15Codec(c *Ctx) {
 	domOrder(wcalls)
 	domOrder(rcalls)
 	var wseq, rseq []codecItem
+	// table-driven encoder: one binary.Write in a loop over a literal table of values
+	tableMode := false
+	if len(wcalls) == 1 {
+		if items := codecTable(wfn, WR, wcalls[0]); len(items) > 0 {
+			wseq, tableMode = items, true
+			wcalls = nil
+		}
+	}
 	for _, in := range wcalls {
 		cl := in.(*ssa.Call)
 		v := cl.Call.Args[2]
@@ -94,7 +103,19 @@ func ruleC15Codec(c *Ctx) {
 			c.Guard(rule, rfn, []ssa.Instruction{r.at}, "read item 1", nil, atom("magic/version matches", "+var(rpc.Message).MagicVersion -6915 ==0"))
 		}
 		// each step after success of the previous
-		if i > 0 {
+		if i > 0 && tableMode {
+			if i == 1 {
+				// the loop goes on to the next item only through the success edge of the write
+				call := w.at
+				ws := Query{Fn: wfn, Start: call, IsSite: func(in ssa.Instruction) bool { return in == call }, GenEdge: successEdgesOfCall(wfn, call)}.Run()
+				if len(ws) == 0 {
+					c.OK(rule, "write items in table order, each after the previous succeeded", c.P.InstrPos(call), "range over the literal table; the next iteration is reached only through the success edge", true)
+				} else {
+					c.Bad(rule, "write items in table order, each after the previous succeeded", c.P.InstrPos(call), "the loop continues after a failed header write", c.witness(ws[0]))
+				}
+			}
+			c.Guard(rule, rfn, []ssa.Instruction{r.at}, fmt.Sprintf("read item %d", i), nil, Need{Desc: "previous item read", Edge: successEdgesOfCall(rfn, rseq[i-1].at)})
+		} else if i > 0 {
 			c.Guard(rule, wfn, []ssa.Instruction{w.at}, fmt.Sprintf("write item %d", i), nil, Need{Desc: "previous item written", Edge: successEdgesOfCall(wfn, wseq[i-1].at)})
 			c.Guard(rule, rfn, []ssa.Instruction{r.at}, fmt.Sprintf("read item %d", i), nil, Need{Desc: "previous item read", Edge: successEdgesOfCall(rfn, rseq[i-1].at)})
 		}
@@ -102,7 +123,11 @@ func ruleC15Codec(c *Ctx) {
 	// payload
 	pw := CallsTo(wfn, "(*bufio.Writer).Write")
 	if len(pw) == 1 && callRender(WR, pw[0]) == "(*bufio.Writer).Write($0.writer,$1.Data)" {
-		c.Guard(rule, wfn, pw, "write payload", nil, Need{Desc: "length prefix written", Edge: successEdgesOfCall(wfn, wseq[5].at)}, atom("payload non-empty", "+len($1.Data) -1 >=0"))
+		prefix := Need{Desc: "length prefix written", Edge: successEdgesOfCall(wfn, wseq[5].at)}
+		if tableMode {
+			prefix = Need{Desc: "whole header table written", Atoms: []string{wseq[5].done}}
+		}
+		c.Guard(rule, wfn, pw, "write payload", nil, prefix, atom("payload non-empty", "+len($1.Data) -1 >=0"))
 	} else {
 		c.Bad(rule, "frame payload | written after the prefix", "", "Wire.Write must write msg.Data after its length prefix", nil)
 	}
@@ -652,4 +677,48 @@ func isDeadlineChan(v ssa.Value, depth int) bool {
 		}
 	}
 	return true
+}
+
+// codecTable: `for _, f := range []struct{...; value interface{}}{{..., v0}, {..., v1}, ...} { binary.Write(w, order, f.value) }`
+// yields the items v0, v1, ... in table order (all attributed to the single call).
+func codecTable(fn *ssa.Function, R *Renderer, call ssa.Instruction) []codecItem {
+	cl := call.(*ssa.Call)
+	data := R.V(cl.Call.Args[2])
+	if !strings.HasPrefix(data, "&var(slicelit)[:][*].") {
+		return nil
+	}
+	field := strings.TrimPrefix(data, "&var(slicelit)[:][*].")
+	type ent struct {
+		k    int
+		item codecItem
+	}
+	var ents []ent
+	eachInstr(fn, func(in ssa.Instruction) {
+		st, ok := in.(*ssa.Store)
+		if !ok {
+			return
+		}
+		a := R.V(st.Addr)
+		if !strings.HasPrefix(a, "&&var(slicelit)[+") || !strings.HasSuffix(a, "]."+field) {
+			return
+		}
+		var k int
+		if _, err := fmt.Sscanf(a, "&&var(slicelit)[+%d]", &k); err != nil {
+			return
+		}
+		t := "?"
+		if mi, ok := st.Val.(*ssa.MakeInterface); ok {
+			t = types.TypeString(mi.X.Type(), nil)
+		}
+		ents = append(ents, ent{k, codecItem{what: strings.TrimPrefix(R.V(st.Val), "$1."), typ: t, ord: R.V(cl.Call.Args[1]), at: call, done: "+* -len(&var(slicelit)[:]) >=0"}})
+	})
+	sort.Slice(ents, func(i, j int) bool { return ents[i].k < ents[j].k })
+	var out []codecItem
+	for i, e := range ents {
+		if e.k != i {
+			return nil
+		}
+		out = append(out, e.item)
+	}
+	return out
 }
